@@ -53,3 +53,27 @@ Theorem C08_block3 `{Sig} : forall st cs st', seq_force3 st cs = Some st' ->
   step3 None st (Block3 cs) = (ROk 0, st').
 Proof. exact compose3. Qed.
 Print Assumptions C08_block3.
+
+(** Non-vacuity: calls where each one reads what the previous ones wrote (the face is built, then sewn, inside
+    the block) succeed one after the other, so the premise of [C08_block2] holds, and the block really
+    changes the map. *)
+From Coq Require Import ZArith Floats Uint63. Import ListNotations.
+From HC Require Import Extract.Run2.
+Definition c08_pt (x y : Z) : V2 := (PrimFloat.of_uint63 (Uint63.of_Z x), PrimFloat.of_uint63 (Uint63.of_Z y)).
+Definition c08_calls : list call2 :=
+  [Link1 1 2; Link1 2 1; Link1 3 4; Link1 4 3;
+   WriteVertex 1 (c08_pt 0 0); WriteVertex 2 (c08_pt 1 0); WriteVertex 3 (c08_pt 1 0); WriteVertex 4 (c08_pt 0 0);
+   Sew2 1 3; Unsew1 2].
+Definition c08_is_some {X} (o : option X) : bool := match o with Some _ => true | None => false end.
+Example C08_block2_nonvacuous :
+  exists st', seq_force (empty2 4 []) c08_calls = Some st' /\ beta (mem st') 2 1 = 3 /\ beta (mem st') 1 2 = 0 /\
+              step2 None (empty2 4 []) (Block c08_calls) = (ROk 0, st').
+Proof.
+  (* only first-order values are computed: the stores (functions) are never normalised *)
+  assert (Hsome : c08_is_some (seq_force (empty2 4 []) c08_calls) = true) by (vm_compute; reflexivity).
+  assert (Hs : option_map (fun s => (beta (mem s) 2 1, beta (mem s) 1 2)) (seq_force (empty2 4 []) c08_calls) = Some (3, 0))
+    by (vm_compute; reflexivity).
+  destruct (seq_force (empty2 4 []) c08_calls) as [st'|] eqn:Es; [|discriminate Hsome].
+  exists st'. cbn [option_map] in Hs. injection Hs as H1 H2.
+  split; [reflexivity|]. split; [exact H1|]. split; [exact H2|]. now apply C08_block2.
+Qed.
